@@ -336,7 +336,7 @@ def run_inplace(W, cfg):
 
 # ------------------------------------------------------------------ histories
 def cfg_hist(tier, seed):
-    out = [{'case': c} for c in ('plane-reuse', 'interleaved-dft2', 'fit-tilt-twice', 'fit-tilt-twice-segmented', 'spectrum-reuse')]
+    out = [{'case': c} for c in ('plane-reuse', 'interleaved-dft2', 'fit-tilt-twice', 'fit-tilt-twice-segmented', 'spectrum-reuse', 'wavefront-fanout', 'offset-dft2-twice')]
     return out, len(out), True
 
 
@@ -355,6 +355,30 @@ def run_hist(W, cfg):
         r2f = lt.propagate_dft(lt.Wavefront(l2) * fresh, pixelscale=du, shape=(2, 2), oversample=1).field
         W.ob('repeating a call gives the same field', r1b, r1)
         W.ob('a reused plane behaves like a fresh one', r2, r2f)
+    elif case == 'wavefront-fanout':
+        # one tilted wavefront handed to two different Tilt planes: the second product must not see the first one's tilt
+        a = W.reals('a', (2, 2), nz=True)
+        z, du, lam = W.real('z', pos=True), W.real('du', pos=True), W.real('lam', pos=True)
+        t0, tA, tB = (W.real('x0'), W.real('y0')), (W.real('xa'), W.real('ya')), (W.real('xb'), W.real('yb'))
+        w0 = lt.Wavefront(lam, tilt=[t0[0], t0[1]]) * lt.Pupil(amplitude=a, mask=rnp.ones((2, 2), dtype=int), focal_length=z, pixelscale=1.0)
+        n0 = [len(f.tilt) for f in w0.data]
+        wa = w0 * lt.Tilt(x=tA[0], y=tA[1])
+        wb = w0 * lt.Tilt(x=tB[0], y=tB[1])
+        W.ob_true('the shared wavefront keeps its own tilt list', [len(f.tilt) for f in w0.data] == n0)
+        sb = wb.data[0].shift(z=z, wavelength=lam, pixelscale=(du, du), oversample=1)
+        W.ob('second product carries its own tilt only', [sb[0], sb[1]], [z * (t0[0] + tB[0]) / du, -z * (t0[1] + tB[1]) / du])
+        sa = wa.data[0].shift(z=z, wavelength=lam, pixelscale=(du, du), oversample=1)
+        W.ob('first product unaffected by the second', [sa[0], sa[1]], [z * (t0[0] + tA[0]) / du, -z * (t0[1] + tA[1]) / du])
+    elif case == 'offset-dft2-twice':
+        f1 = W.complexes('f', (2, 3))
+        a1, k = W.real('a1'), W.int('k', -3, 3)
+        x = lt.fourier.dft2(f1, a1, shape=(2, 2), offset=(k, 1))
+        y = lt.fourier.dft2(f1, a1, shape=(2, 2), offset=(k, 1))
+        zc = lt.fourier.dft2(f1, a1, shape=(2, 2))
+        lt.fourier.dft2(f1, a1, shape=(2, 2), offset=(2, k))
+        zc2 = lt.fourier.dft2(f1, a1, shape=(2, 2))
+        W.ob('an offset transform repeated gives the same values', y, x)
+        W.ob('a centred transform is the same before and after an offset one', zc2, zc)
     elif case == 'interleaved-dft2':
         f1, f2 = W.complexes('f', (2, 2)), W.complexes('g', (2, 2))
         a1, a2 = W.real('a1'), W.real('a2')
